@@ -122,7 +122,7 @@ Lemma inplace_fail_ex h m tm0 h3 r2 pb root h4 g : wf h -> getT h m = Some tm0 -
   dup h3 root = Some (h4, g) ->
   exists out, inplace_fail h4 g m (t_grad tm0, t_vgrad tm0, t_base tm0) pb = Some out.
 Proof. intros W Hm P D. unfold inplace_fail.
-  destruct (dup_restore_given h3 root h4 g (pr_wf _ _ _ _ _ _ P) D) as (hr & R & (S1 & S2 & S3 & S4 & S5)).
+  destruct (dup_restore_given h3 root h4 g (pr_wf _ _ _ _ _ _ P) D) as (hr & R & (S1 & S2 & S3 & S4 & S5) & _).
   rewrite R. simpl.
   assert (HgetT : forall q, getT (free_placeholders hr g) q = getT h3 q) by (intros q; unfold getT; now rewrite S1).
   unfold restore_prior. rewrite HgetT, (pr_m _ _ _ _ _ _ P). simpl.
